@@ -57,6 +57,22 @@ def decorate(rng, text, width, p, eol="\n"):
                                ["m99 1001.80c 1.0", "", "more ignored text"]])
             lines = lines[:end + 1] + tail + [""]
             feats.append("text-after-data-block")
+    if rng.random() < p + 0.15:
+        # '$' comments directly after the value of a cell parameter at the end of a line, and after the value that an
+        # interpolate shortcut ends in (the padding of a node that edits and placement changes have to carry along)
+        n = 0
+        for k in range(i, len(lines)):
+            l = lines[k]
+            if "$" in l or "&" in l or "\t" in l or len(l) > width - 12 or spec.is_comment_line(l) or not l.strip():
+                continue
+            if re.search(r"(?i)(^|\s)(vol|u)\s*=\s*[-+.\dEe]+\s*$", l) and rng.random() < 0.5:
+                lines[k] = l.rstrip() + " $ note"
+                n += 1
+            elif re.search(r"(?i)\s\d*i(log)?\s+[-+.\dEe]+\s*$", l) and rng.random() < 0.6:
+                lines[k] = l.rstrip() + " $ a plane"
+                n += 1
+        if n:
+            feats.append("comment-after-value")
     if rng.random() < p:
         # junk beyond the column limit on a few data lines (not on comment lines: a comment is all junk anyway)
         n = 0
@@ -86,7 +102,8 @@ def jsonable_meta(m):
 def meta_int_keys(m):
     """undo the str() of dict keys done for JSON"""
     out = dict(m)
-    for k in ("surface_constants", "universes", "fills", "imps", "vols", "material_zaids", "material_laws"):
+    for k in ("surface_constants", "universes", "fills", "imps", "vols", "material_zaids", "material_laws",
+              "surface_interpolated", "tr_rotation_entries"):
         if k in out and isinstance(out[k], dict):
             out[k] = {int(a): b for a, b in out[k].items()}
     return out
@@ -418,6 +435,13 @@ class Ref:
             self.mts[e["orig"]]["laws"] = [x.upper() for x in e["laws"]]
         elif k == "tr_degrees":
             self.trs[e["orig"]]["star"] = bool(e["value"])
+        elif k == "tr_rotation":
+            t = self.trs[e["orig"]]
+            old_n = max(0, min(9, len(t["values"]) - 3))
+            t["values"] = t["values"][:3] + [Fraction(x) for x in e["matrix"]] + t["values"][3 + old_n:]
+        elif k == "data_append":
+            toks = spec.tokens(e["text"])
+            D["data"].append({"kind": "OTHER", "name": toks[0], "values": spec.expand_shortcuts(toks[1:])})
         elif k == "placement":
             pass              # which block per-cell data are written in does not change what the file denotes
         elif k == "surface_transform":
@@ -476,11 +500,24 @@ def c03_check(case, prog):
         return {"kind": "edited-file-unreadable", "error": type(e).__name__, "msg": str(e)[:200], "diffs": [["file", "unreadable"]]}
     diffs = denote_diff(ref.D, DE)
     if diffs:
-        edited = set()
-        for e in applied:
-            edited.add(e["kind"])
         return {"kind": "edit-not-written-exactly", "diffs": [[str(x)[:300] for x in d] for d in diffs[:4]],
                 "n_diffs": len(diffs)}
+    if len(applied) >= 2:
+        # the same program with the problem written after every edit: the file written at the end must still denote
+        # the original problem with ALL the edits (an edit made after a write must not be lost)
+        try:
+            pr2 = mp.read_problem(case["text"], version=VERS[W])
+            with warnings.catch_warnings():
+                warnings.simplefilter("ignore")
+                ED.apply_program(pr2, prog, observe=lambda p_, i_: mp.write_problem(p_, "mid.i", VERS[W]))
+            E2 = mp.write_problem(pr2, "e2.i", VERS[W])
+            DE2 = denote(E2, W)
+        except Exception as e:
+            return {"kind": "write-between-edits-failed", "error": type(e).__name__, "msg": str(e)[:300]}
+        diffs = denote_diff(ref.D, DE2)
+        if diffs:
+            return {"kind": "edit-lost-after-intermediate-write",
+                    "diffs": [[str(x)[:300] for x in d] for d in diffs[:4]], "n_diffs": len(diffs)}
     return None
 
 
@@ -513,7 +550,8 @@ _OWN = {"cell_number": "cell", "density": "cell", "importance": "cell", "volume"
         "surface_number": "surface", "surface_constant": "surface", "boundary": "surface",
         "surface_transform": "surface",
         "material_number": "material", "fraction": "material", "thermal_law": "material",
-        "transform_number": "transform", "tr_displacement": "transform", "tr_degrees": "transform"}
+        "transform_number": "transform", "tr_displacement": "transform", "tr_degrees": "transform",
+        "tr_rotation": "transform"}
 
 
 def touched_cards(bu, applied, exps=None):
@@ -720,6 +758,9 @@ def _touched_card_check(cu, ce, bi, exps, applied):
             return {"kind": "unexplained-change", "before": cu.text, "after": ce.text, "token": [hu, he]}
     if head and head.group(2) == "MT" and any(e["kind"] == "thermal_law" for e in mine):
         return None          # every other token of the card is the edited list of laws
+    if head and head.group(2) == "TR" and any(e["kind"] == "tr_rotation" for e in mine):
+        # the rotation matrix (everything after the three displacements) is the edited quantity
+        tu, te = tu[:4], te[:4]
     if bi == 1 and any(e["kind"] == "surface_transform" for e in mine):
         # the transform pointer (second token, an integer) is the edited quantity: it may appear, change or go
         if len(tu) > 1 and re.match(r"^[+-]?\d+$", tu[1]):
